@@ -107,7 +107,19 @@ def cargo_build(release=False):
         shutil.copy("/repo/Cargo.lock", lock)
     cmd = ["cargo", "build", "--offline"] + (["--release"] if release else [])
     rc, out = sh(cmd, cwd=HARN, timeout=3600)
+    global LAYOUT_HOOK_LOST
+    LAYOUT_HOOK_LOST = None
+    if rc != 0:
+        # the C19 slot-layout accessor lives inside graph.rs; a change to the index maps can stop it compiling although the crate
+        # itself builds. Build without it, so that the requests still run and can exhibit a failing input; the lost obligation is reported.
+        rc2, out2 = sh(cmd + ["--no-default-features"], cwd=HARN, timeout=3600)
+        if rc2 == 0:
+            LAYOUT_HOOK_LOST = out
+            return True, out2
     return rc == 0, out
+
+
+LAYOUT_HOOK_LOST = None
 
 
 def harness_bin(release=False):
@@ -327,6 +339,9 @@ def check_once(prop, tier, seed, pin):
         leanchecker = "ok" if all(r == 0 for r in rcs) else "failed"
 
     recs = []
+    if LAYOUT_HOOK_LOST is not None:
+        problems.append(("hook", "the index-layout hook (feature verif_index_layout) no longer compiles against /repo; harness built without it, "
+                                 "the slot-layout hypotheses of Boom.C19_builders_agree are not evaluated on this tree: " + trunc(LAYOUT_HOOK_LOST[-500:], 500)))
     if not ok_h:
         problems.append(("harness-build", trunc(out_h[-800:], 800)))
     if not ok_drv:
